@@ -7,6 +7,7 @@ import (
 	"sort"
 	"strings"
 	"sync"
+	"time"
 
 	"github.com/buildbuildio/pebbles/gqlerrors"
 	"github.com/buildbuildio/pebbles/requests"
@@ -46,6 +47,8 @@ type Service struct {
 	Faults []Fault
 	// FaultsApplied counts faults that really changed an answer
 	FaultsApplied int
+	// Delay, when set, makes answering a request whose query contains the key take that long
+	Delay map[string]time.Duration
 }
 
 func NewService(url string, schema *ast.Schema, store *Store) *Service {
@@ -169,6 +172,11 @@ func (s *Service) Query(inputs []*requests.Request) ([]map[string]interface{}, e
 	out := make([]map[string]interface{}, 0, len(inputs))
 	var firstErr error
 	for i, in := range inputs {
+		for k, d := range s.Delay {
+			if strings.Contains(in.Query, k) {
+				time.Sleep(d)
+			}
+		}
 		data, errs, lr := s.Answer(in, call)
 		lr.Answer = jsonCopy(data)
 		s.mu.Lock()
